@@ -305,9 +305,19 @@ def locate(lines, gline):
 
 
 # --------------------------------------------------------------------------- harness runs
-def run_harness(binary, sub, args, timeout=600, allow_fail=False):
+def run_harness(binary, sub, args, timeout=600, allow_fail=False, cpu_limit=None):
+    """cpu_limit (seconds of the harness's own CPU time): a run that never ends is a result (death by SIGXCPU, attributed
+    like any other death), not a tool error, and a loaded machine cannot fake it."""
     t0 = time.time()
-    p = subprocess.run([binary, sub] + args, stdout=subprocess.PIPE, stderr=subprocess.STDOUT, text=True, timeout=timeout)
+
+    def limits():
+        import resource
+        resource.setrlimit(resource.RLIMIT_CORE, (0, 0))
+        if cpu_limit:
+            resource.setrlimit(resource.RLIMIT_CPU, (cpu_limit, cpu_limit + 5))
+
+    p = subprocess.run([binary, sub] + args, stdout=subprocess.PIPE, stderr=subprocess.STDOUT, text=True, timeout=timeout,
+                       preexec_fn=limits)
     if p.returncode != 0 and not allow_fail:
         sys.stderr.write(p.stdout[-3000:])
         raise ToolError("harness %s failed rc=%s" % (sub, p.returncode))
